@@ -22,8 +22,10 @@ def WM.createIn (w : WM) (t : Nat) (ai : Nat) : WM × Handle × List Cb :=
     let (w, h) := w.createLocked t a.mask a.shared
     (w, h, [])
   else
+    -- the archetype may predate a dependency declaration: the entity goes where a lookup of its component set leads now
+    let (w, ti) := if w.deps.isEmpty then (w, ai) else w.getArch a.mask a.shared
     let (w, h) := w.allocId
-    let (w, cbs) := w.archInsert info ai h []
+    let (w, cbs) := w.archInsert info ti h []
     (w, h, cbs)
 
 end Mustache.Model
